@@ -172,7 +172,11 @@ def r3(ctx):
     app = [nn for c in method_calls(f, ("append", "appendleft")) if tail(c.func.value) == "_keep" for nn in nodes_with(f, c)]
     reg = [nn for c in method_calls(f, "register") if tail(c.func.value) == "poller" for nn in nodes_with(f, c)]
     sto = [nn for c in method_calls(f, "set_timeout") for nn in nodes_with(f, c)]
-    ctx.need(dec and app and reg and sto, "C13.R3: finish_request lacks release or re-arm statements")
+    ctx.need(dec and app and reg, "C13.R3: finish_request lacks release or re-arm statements")
+    if not sto:
+        ctx.bad("C13.R3", key(f, "deadline-at-idle"), site(f), "finish_request re-arms a keep-alive connection without setting its deadline at that moment (conn.set_timeout()): "
+                "the keep-alive time is not counted from when the connection went idle, so idle connections are closed before the keep-alive time has passed")
+        return
     # enumerate acyclic paths to the normal exit
     paths = []
 
@@ -361,3 +365,10 @@ def r6(ctx):
     ctx.check("C13.R6", len(a) == 1 and a == b, key(f, "same-clock"), site(f), "deadline clock %s differs from reaper clock %s" % (sorted(a), sorted(b)), "same clock %s" % sorted(a))
     fs = repo.func("gunicorn.workers.gthread.TConn.set_timeout")
     ctx.check("C13.R6", any(cfg_attr(x) == "keepalive" for x in walk_own(fs.node)), key(fs, "deadline-from-keepalive"), site(fs), "the deadline is not now + cfg.keepalive", "deadline = now + cfg.keepalive")
+    # the deadline is armed only when a connection goes idle (finish_request), never at dispatch
+    for ff in repo.funcs():
+        for c in walk_own(ff.node):
+            if isinstance(c, ast.Call) and isinstance(c.func, ast.Attribute) and c.func.attr == "set_timeout" and ff.module.name == "gunicorn.workers.gthread":
+                ctx.check("C13.R6", ff.qualname == TW + ".finish_request", key(ff, "deadline-armed-elsewhere"), site(ff, c),
+                          "the keep-alive deadline is (re)armed outside finish_request: handling time is charged against the idle allowance and _keep is no longer ordered by deadline",
+                          "armed when the connection goes idle")
